@@ -504,6 +504,19 @@ def cliNumber (s : Bytes) : Except Err Int :=
   | .number => toMaxint s
   | _ => .error .syntax
 
+/-- `to_int64(x)` of src/app/main.cpp: every 64-bit command-line option (`--legendre`, `--meissel`, `--lmo*`,
+    `--nth-prime`, `--phi` (both numbers), `--gourdon-64`, …) narrows the evaluated number with it. Repaired (finding F8): a
+    value outside int64 is rejected with a `primecount_error`. The unrepaired function tested only the upper bound and the
+    second number of `--phi` was narrowed implicitly, so `primecount 0-18446744073709551516 --legendre` printed π(100). -/
+def cliToInt64 (v : Int) : Except Err Int :=
+  if -(2 : Int) ^ 63 ≤ v ∧ v < (2 : Int) ^ 63 then .ok v else .error .tooLarge
+
+/-- `primecount <s> --<64-bit option>`: the number handed to the 64-bit function, or an error -/
+def cliNumber64 (s : Bytes) : Except Err Int :=
+  match cliNumber s with
+  | .ok v => cliToInt64 v
+  | .error e => .error e
+
 /-! ### independent reference: precedence climbing for the documented operator table
 
 Not used by any theorem about the code; it exists to cross-check (executably, op `toiref`) that the tree
